@@ -84,7 +84,7 @@ def driver_targets():
     return res
 
 
-SRC_PARTS = {"C01": ["gp-memb", "gp-mb", "gp-bp", "gp-qsbr"], "C10": ["wfcq"], "C11": ["wfs", "lfs"], "C12": ["lfq"]}
+SRC_PARTS = {"C01": ["gp-memb", "gp-mb", "gp-bp", "gp-qsbr"], "C10": ["wfcq"], "C11": ["wfs", "lfs"], "C12": ["lfq"], "C13": ["defer"]}
 
 
 def main():
